@@ -188,7 +188,7 @@ def check(an, rep, tier):
         'sample-order independence.')
     rep.assumptions = pre('PRE-TT', 'PRE-D', 'PRE-IDX', 'PRE-DOC')
     rep.trusted = ['NumPy model', 'stop-writer table']
-    ds = (2, 3) if tier == 'quick' else (2, 3, 4)
+    ds = (2, 3) if tier == 'quick' else (2, 3, 4, 5)
     wh = {'als.als', 'als._lstsq', 'als._optimize_core',
           'als._optimize_core_adaptive', 'als_func.als_func',
           'als_func._optimize_core'}
@@ -202,9 +202,11 @@ def check(an, rep, tier):
             st, detail = tt_wellformed(rv, modes_from('Y0.n')(r))
             if st == 'ok':
                 # ranks equal to those of Y0
+                from .common import cmp3
                 for k, c in enumerate(rv.items[:-1]):
-                    if not same(c.dims[2], Poly.sym('Y0.r%d' % (k + 1))):
-                        st, detail = 'violation', 'bond %d is %r, Y0 has %s' % (
+                    c3 = cmp3(c.dims[2], Poly.sym('Y0.r%d' % (k + 1)))
+                    if c3 != 'ok' and st != 'violation':
+                        st, detail = c3, 'bond %d is %r, Y0 has %s' % (
                             k + 1, c.dims[2], 'Y0.r%d' % (k + 1))
             rep.add('S-ret', 'als.als', 'return path %d of %s' % (j, r.tag()),
                     st, detail)
